@@ -3,9 +3,10 @@
    mapped to their OCaml counterparts; nat stays the unary datatype).
    Run from this directory: coqc -Q ../coq CffVerif Extract.v *)
 From Coq Require Import Extraction ExtrOcamlBasic.
-From CffVerif Require Import BuildTagModel SchedModel ValidateModel.
+From CffVerif Require Import BuildTagModel SchedModel ValidateModel FlowSemModel.
 
 Extraction Language OCaml.
 Extraction "cffmodel.ml" invert eval flip_cff has_cff gen_filename splice
   initc init stepc step run replay is_final wf_cfg_b event_eqb
-  validate accepts wf_b funcs provider default_concurrency.
+  validate accepts wf_b funcs provider default_concurrency
+  failures result_values calls blocked.
